@@ -70,6 +70,9 @@ impl<'a> std::fmt::Display for SlowMsg<'a> {
     }
 }
 
+/// What the encoder has written of the record it gives up on half-way.
+const PARTIAL: &str = "<<partial record of the target appender ";
+
 /// Refuses records whose message is "refuse-me"; everything else goes to the real encoder.
 #[derive(Debug)]
 struct Refusing(PatternEncoder);
@@ -78,6 +81,11 @@ impl log4rs::encode::Encode for Refusing {
     fn encode(&self, w: &mut dyn EncWrite, record: &log::Record) -> anyhow::Result<()> {
         if record.args().to_string() == "refuse-me" {
             anyhow::bail!("verif: the encoder refuses this record");
+        }
+        if record.args().to_string() == "refuse-me-half-way" {
+            // part of the record is out already when the encoder gives up
+            w.write_all(PARTIAL.as_bytes())?;
+            anyhow::bail!("verif: the encoder gives up half-way through this record");
         }
         self.0.encode(w, record)
     }
@@ -238,6 +246,15 @@ pub fn child_main(args: &[String]) -> i32 {
     if let Some(k) = cell.literal {
         if with_literal_record(k, |rec| app.append(rec)).is_err() {
             return 3;
+        }
+    }
+    if cell.refuse_one && other.is_some() {
+        // the last thing the target appender does: an encoder that gives up half-way. What it had written belongs to the
+        // target stream; the appender of the other stream, logging next on the same thread, writes its own records only
+        let refused = Rec { level: 0, msg: vec!["refuse-me-half-way".into()], target: "app::mod".into(), module: None, file: None, line: None, mdc: vec![] };
+        let r = with_rec(&refused, |rec| app.append(rec));
+        if r.is_ok() && !(cell.tty_only && !target_is_tty(&cell)) {
+            return 4;
         }
     }
     if let Some(o) = other {
@@ -504,6 +521,23 @@ pub fn check_cell(tmp: &Path, cell: &Cell, obs: &mut Obs) -> CaseResult {
     let cls = format!("{}:{}", env_class(cell), if target_tty { "tty" } else { "pipe" });
     let env = Env { thread_name: "main".into(), debug_build: cfg!(debug_assertions), now_secs: 0 };
     let expected: String = records_of(cell).iter().map(|r| render(&cell.pat, r, &env)).collect();
+    // the partial output of the record the target's encoder gave up on belongs to the target stream, at its very end -
+    // if it gets there at all: the appender does not flush after a failed encode, and the child ends without a farewell
+    // flush. What is asserted is that it shows up nowhere else (the other stream is compared exactly below).
+    let partial_due = cell.refuse_one && cell.also_other && (!cell.tty_only || target_tty);
+    let trimmed: Vec<u8>;
+    let partial_at = if partial_due { target_bytes.windows(PARTIAL.len()).rposition(|w| w == PARTIAL.as_bytes()) } else { None };
+    let target_bytes: &Vec<u8> = match partial_at {
+        Some(p) => {
+            // (nothing but escape sequences may follow it)
+            let tail = strip_sgr(&target_bytes[p + PARTIAL.len()..]).map(|x| x.0).unwrap_or_else(|_| vec![b'?']);
+            ensure!(tail.is_empty(), "C18:text-differs", "text follows the partial output of the last (failed) record on the target stream: {:?}", String::from_utf8_lossy(&tail));
+            trimmed = target_bytes[..p].to_vec();
+            &trimmed
+        }
+        None => target_bytes,
+    };
+    obs.class_if(partial_due, "encoder-gave-up-half-way-before-the-other-appender-logged");
     if cell.also_other {
         // the second appender (unrestricted) owns the other stream: its colour decision follows ITS stream
         let other_tty = if cell.target_stderr { cell.stdout_tty } else { cell.stderr_tty };
